@@ -197,4 +197,4 @@ def signature(case, impl_obs, model_obs):
     return "%s:%s" % (case.engine, kind)
 
 
-PARTS = [{"name": "vm_gen", "harness": "vm_gen.cpp", "gen": gen, "timeout_case": 20}]
+PARTS = [{"name": "vm_gen", "harness": "vm_gen.cpp", "gen": gen, "timeout_case": 3}]
